@@ -8,6 +8,7 @@ force, limits persist across calls that pass none, saturated limits return with 
 import os
 
 import gridlib as gl
+import rltie
 import vlib
 
 LEVEL = "proof"
@@ -20,6 +21,8 @@ TRUSTED = [
     "NOT modelled: curved/hyperbolic contour weights (floating point), ip/qp exactness tables, wavelet and non-classic local strategies, "
     "construction candidate ordering - for those the statement is evaluated on the implementation; "
     "one-dimensional level of a point index is recomputed by the harness (RuleLocal/RuleWavelet formulas, numPoints tables read from the library)",
+    "translator translator/rulelocal.py (clang JSON AST of tsgRuleLocalPolynomial.hpp / tsgMathUtils.hpp -> coq/gen/RuleLocalGen.v; rules R1-R6 in the generated header; stops on unknown shapes): "
+    "the integer hierarchy functions are regenerated on every run and proved equal to Model/RuleLocal.v for all non-negative points (Props/Properties_RuleLocalGen.v)",
 ]
 
 
@@ -164,6 +167,7 @@ def matrix_cases(r):
 def run(res, tier, seed, replay_script=None):
     props = vlib.coq_props(PID)
     vlib.proof_coverage(res, PID, props, "cd coq && make Props/Properties_C08.vo && coqc -Q . TV Props/Properties_C08.v", TRUSTED)
+    rl_break = rltie.run(res, PID)      # the RuleLocal integer functions re-translated from the header and re-proved equal to the model
     ok_ext, elog = vlib.coq_make(["Extract/ExtractCore.vo"])
     proof_broken = (not props["ok"]) or bool(res.coverage["forbidden_tokens"])
     runner = vlib.ocaml_runner("core") if ok_ext else None
@@ -367,6 +371,7 @@ def run(res, tier, seed, replay_script=None):
         res.violation("correspondence", "model and implementation disagree on %d cases, e.g. %s" % (len(mism), mism[0][:300]),
                       {"kind": "correspondence-break", "correspondence": "Model.LowerSets.select_level / limits_box_full vs selectTensors / isLimitsBoxFull",
                        "examples": mism[:10]}, no_input=True)
+    rltie.report(res, rl_break)
     if proof_broken and not res.violations:
         res.violation("proof", "proof obligations of Properties_C08.v no longer check (%d/%d) %s" % (props["discharged"], props["obligations"], res.coverage["forbidden_tokens"][:2]),
                       {"kind": "proof-break", "theorems": props["theorems"], "log": props["log"][-3000:]}, no_input=True)
